@@ -13,7 +13,9 @@ BASE = [
 SPECIAL = ["", " ", "\n\n", "\t", "   \n  \n", "x = 1\x00", "\x00", "x = '\ud800'", "x = 1\ry = 2\n", "x = 1\x0c\n",
            "if 1:\n\tx=1\n        y=2\n", "(" * 300 + ")" * 300, "+".join(["1"] * 20000), "-" * 20000 + "1",
            "x = 1\n  y = 2\n", "def f(:\n", "print 'a'\n", "x = = 1\n", "'unterminated\n", "x = [1, 2\n", "\x1a",
-           "x = 1 # comment \x00 after", "é = 1\n", "a = 1;;\n", "\ufeffx = 1\n", "x = 1\\\n", "\\"]
+           "x = 1 # comment \x00 after", "é = 1\n", "a = 1;;\n", "\ufeffx = 1\n", "x = 1\\\n", "\\",
+           "a = 1\rb = (\r", "if 1:\r\tx = 1\r        y = 2\r", "a = 1\r\rb = = 2\r", "ok = 1\r\nbad = (\r\n",
+           "v = 1\rdef f(:\r    pass\r"]
 
 
 def mutate(rnd, text):
@@ -102,6 +104,35 @@ def bounded(arg):
                 elif kind == 'syntax' and val.lineno is None:
                     canon += ' (SyntaxError without a line)'
                 failures.append({'id': what, 'canon': canon, 'detail': detail, 'text': t[:200]})
+    # syntax errors inside an independent section carry whole-file line numbers
+    from pedal.core.report import Report
+    from pedal.core.submission import Submission
+    from pedal.source.sections import separate_into_sections, next_section
+    from pedal.source import verify
+    for prologue in ("a = 0\n", "a = 0\x0c\nb = 1\n", "s = 'x\x0bz'\n\n", "", "# c\x1c\n# d\n"):
+        for chunk in ("x = (\n", "print 'a'\n", "ok = 1\n  bad = 2\n", "fine = 1\n"):
+            whole = prologue + "##### Part 1\n" + chunk
+            evaluations += 1
+            distinct.add(('section', prologue, chunk))
+            report = Report()
+            report.contextualize(Submission(files={'answer.py': whole}, main_file='answer.py', main_code=whole))
+            try:
+                separate_into_sections(independent=True, report=report)
+                next_section(report=report)
+                verify(report=report)
+            except BaseException as e:
+                failures.append({'id': 'never_raises', 'canon': 'never_raises (inside a section)',
+                                 'detail': 'section scenario raised %r for %r' % (e, whole)})
+                continue
+            kind, val = parser_outcome(whole)
+            syn = [f for f in report.feedback if f.label in ('syntax_error', 'indentation_error')]
+            if kind == 'syntax' and (len(syn) != 1 or syn[0].location.line != val.lineno):
+                failures.append({'id': 'line', 'canon': 'line (inside a section)',
+                                 'detail': 'whole file %r: parser line %r, feedback %r' % (
+                                     whole, val.lineno, [f.location.line for f in syn])})
+            if kind == 'ok' and syn:
+                failures.append({'id': 'spurious_syntax_feedback', 'canon': 'spurious_syntax_feedback (inside a section)',
+                                 'detail': 'whole file %r parses but %r attached' % (whole, [f.label for f in syn])})
     samples = [{'text': SPECIAL[5]}, {'text': BASE[1]}, {'text': texts[len(BASE) + len(SPECIAL)]}]
     return {'name': 'B-verify', 'bound': '%d source texts (%d valid programs, %d special texts, %d random 1-2 character '
             'mutations) x 2 line offsets' % (len(texts), len(BASE), len(SPECIAL), len(texts) - len(BASE) - len(SPECIAL)),
